@@ -33,13 +33,19 @@ ASSUMPTIONS = [
     "VRP: RNG, float distances (`hypot`) and the insertion-cost heuristics appear only as the payload of "
     "abstract transitions; the cached distance matrix is taken from the implementation as exact rationals",
     "VRP: float arrival times / objective are compared with the exact rational recomputation within 1e-6",
+    "VRP: Vehicle.id is a label (the code never reads it); every per-vehicle quantity of the model (capacity) is "
+    "addressed by list position, so ids different from positions must not change any observable",
     "excluded region: customer ids are their 1-based position (the documented usage; VRPState indexes "
     "customers by id), required_vehicles >= 1, solve_vrptw max_iter >= 1 (max_iter = 0 is C19's lns.py case)",
 ]
 RULE = ("job shop: 1-6 jobs of 1-6 ops over 1-4 machine labels with gaps, repeated machines, zero durations, "
         "all rules, local-search lengths 0-150, seeds; non-trivial = the local search accepted >= 1 swap "
         "(final objective < dispatch objective).  VRP: 3-9 customers, time windows, demands, 0-3 "
-        "multi-vehicle customers, fleets 1-4, weights, seeds, short ALNS runs replayed with recording "
+        "multi-vehicle customers, fleets 1-4 given as a count or (half of the cases) as explicit Vehicle lists "
+        "whose ids are positional / a non-identity permutation / outside 0..n-1 / strings / repeated, with "
+        "heterogeneous capacities (big truck first or last) and max_duration values, weights, seeds, objective "
+        "probes (vrp_objective on crammed, overloaded and late plans built from visited states), short ALNS runs "
+        "replayed with recording "
         "wrappers + direct operator calls on recorded states + scripted operator sequences; non-trivial "
         "= >= 1 destroy step that removed and >= 1 repair step that inserted a customer")
 TOL = [1, 10 ** 6]    # absolute: arrival times, objective
@@ -109,8 +115,8 @@ def gen_problem(rng, big):
         custs.append([i, x, y, rng.choice([0, 1, 2, 3, 5, 2.5]), tws, twe, rng.choice([0, 0, 1, 2.5]),
                       rng.choice([2, 2, 3]) if i in multi else 1])
     cap = rng.choice([None, None, 4, 8, 15, 30] if tight else [None, None, None, 15, 30])
-    if rng.random() < 0.3:
-        vehicles = [[v, rng.choice([None, 3, 6, 12, 25])] for v in range(fleet)]
+    if rng.random() < 0.5:
+        vehicles = gen_fleet(rng, fleet, sum(c[3] for c in custs))
     else:
         vehicles = fleet
     weights = {}
@@ -122,6 +128,35 @@ def gen_problem(rng, big):
                 weights[key] = rng.choice(vals)
     return {"customers": custs, "as_tuples": rng.random() < 0.3, "vehicles": vehicles, "vehicle_capacity": cap,
             "depot": depot, "weights": weights}
+
+
+def gen_fleet(rng, fleet, total_demand):
+    """Explicit `Vehicle` list `[id, capacity|None, max_duration|None]`.  `Vehicle.id` is a label: the
+    code addresses vehicles by list position only, so ids that are a non-identity permutation, lie
+    outside 0..n-1, are strings or repeat must behave exactly like positional ids.  Capacities differ
+    per vehicle (often one big truck, first or last, that can take nearly everything)."""
+    style = rng.choice(["identity", "permuted", "permuted", "offset", "offset", "string", "duplicate"])
+    ids = list(range(fleet))
+    if style == "permuted" and fleet > 1:
+        while ids == list(range(fleet)):
+            rng.shuffle(ids)
+    elif style == "permuted":
+        ids = [1]
+    elif style == "offset":
+        ids = [10 * (i + 1) for i in range(fleet)]
+        rng.shuffle(ids)
+    elif style == "string":
+        ids = [f"truck-{chr(97 + (fleet - 1 - i))}" for i in range(fleet)]
+    elif style == "duplicate":
+        ids = [0] * fleet
+    big = max(1, int(total_demand) + rng.choice([-2, 0, 1]))
+    kind = rng.choice(["big_first", "big_last", "random", "random"])
+    caps = [rng.choice([None, 2, 3, 6, 12, 25]) for _ in range(fleet)]
+    if kind == "big_first":
+        caps = [big] + [rng.choice([1, 2, 3, 5]) for _ in range(fleet - 1)]
+    elif kind == "big_last":
+        caps = [rng.choice([1, 2, 3, 5]) for _ in range(fleet - 1)] + [big]
+    return [[i, c, rng.choice([None, None, 50, 7.5])] for i, c in zip(ids, caps)]
 
 
 def gen_script(rng, has_multi, length):
@@ -172,6 +207,7 @@ def gen_vrp(rng, big):
         case["direct"] = [[rng.random(), op_call(rng, rng.choice((DESTROY if has_multi else DESTROY[:4]) +
                                                                  (REPAIR if has_multi else REPAIR[:2])))]
                           for _ in range(nd)]
+    case["probe_seed"] = rng.randrange(1000)
     return case
 
 
@@ -233,7 +269,8 @@ def _build(case):
             custs.append(V.Customer(c[0], c[1], c[2], c[3], c[4], twe, c[6], c[7]))
     veh = case["vehicles"]
     if not isinstance(veh, int):
-        veh = [V.Vehicle(v[0], float("inf") if v[1] is None else v[1]) for v in veh]
+        veh = [V.Vehicle(v[0], float("inf") if v[1] is None else v[1],
+                         float("inf") if len(v) < 3 or v[2] is None else v[2]) for v in veh]
     kw = {}
     if case.get("vehicle_capacity") is not None:
         kw["vehicle_capacity"] = case["vehicle_capacity"]
@@ -322,6 +359,31 @@ def impl_vrp(case):
                 base.unassigned = set(pre[1])
                 base.arrival_times = [list(a) for a in pre[2]]
                 call(base, c)
+        # objective probes: `vrp_objective` / `update_arrival_times` on crammed (overloaded, late) plans built
+        # from states the run went through -- reachable states never overload a vehicle, so the capacity
+        # and lateness terms of the weighted sum would otherwise always be evaluated at 0
+        prng = random.Random(case.get("probe_seed", 0))
+        srcs = [s[3] for s in steps][-40:] + [out["final"]]
+        probes = []
+        for _ in range(case.get("probes", 3)):
+            src = prng.choice(srcs)
+            allc = list(dict.fromkeys(c for r in src[0] for c in r))
+            k = len(src[0])
+            if not allc or not k:
+                continue
+            prng.shuffle(allc)
+            v = prng.randrange(k)
+            cut = prng.randint(0, len(allc)) if k > 1 and prng.random() < 0.5 else len(allc)
+            routes = [[] for _ in range(k)]
+            routes[v] = allc[:cut]
+            if cut < len(allc):
+                routes[(v + 1 + prng.randrange(k - 1)) % k] = allc[cut:]
+            base = V.VRPState.from_problem(st.customers, st.vehicles)
+            base.routes = routes
+            base.unassigned = set(src[1])
+            base.update_arrival_times()
+            probes.append(snap(base))
+        out["probes"] = probes
     finally:
         for name, fn in orig.items():
             setattr(V, name, fn)
@@ -378,6 +440,7 @@ def vrp_request(case, out):
     fin = out["final"]
     final_id = sid([fin[0], fin[1], fin[2], out["final_obj"]])
     ids = [(st[1], st[2]) for st in steps]
+    probe_ids = [sid(pr) for pr in out.get("probes", [])]
     veh = case["vehicles"]
     if isinstance(veh, int):
         caps = [None if case.get("vehicle_capacity") is None else rat(case["vehicle_capacity"])] * veh
@@ -389,7 +452,7 @@ def vrp_request(case, out):
            [None] + [None if c[5] is None else rat(c[5]) for c in cs], [rat(0)] + [rat(c[6]) for c in cs],
            caps, [rat(W[k]) if k in W else None for k in WKEYS], TOL, REL,
            [[rat(case["depot"][0]), rat(case["depot"][1])]] + [[rat(c[1]), rat(c[2])] for c in cs], states, steps]
-    return req, ids, final_id
+    return req, (ids, probe_ids), final_id
 
 
 # ---------------------------------------------------------------------------
@@ -483,6 +546,17 @@ def judge_vrp(ctx, case, o, reply, ids, final_id):
     ctx.count("vrp:script" if "script" in case else "vrp:solve")
     ctx.count(f"vrp:n={len(case['customers'])}")
     ctx.count(f"vrp:multi={len(multi)}")
+    veh = case["vehicles"]
+    if isinstance(veh, int):
+        ctx.count("vrp:fleet:int")
+    else:
+        vids = [v[0] for v in veh]
+        ctx.count("vrp:fleet:list:" + ("ids_positional" if vids == list(range(len(vids))) else
+                                        "ids_string" if any(isinstance(i, str) for i in vids) else
+                                        "ids_permuted" if sorted(vids) == list(range(len(vids))) else
+                                        "ids_duplicate" if len(set(vids)) < len(vids) else "ids_out_of_range"))
+        if len({json.dumps(v[1]) for v in veh}) > 1:
+            ctx.count("vrp:fleet:heterogeneous_capacity")
     seen = set()
 
     def once(f, klass, what, extra):
@@ -511,6 +585,20 @@ def judge_vrp(ctx, case, o, reply, ids, final_id):
 
     removed = inserted = 0
     reqs_steps = out["steps"]
+    ids, probe_ids = ids
+    for pi, pr in zip(probe_ids, out.get("probes", [])):
+        _inv, arr_ok, obj_ok, exact = sv[pi]
+        ctx.count("vrp:objective_probe")
+        if core.unrat(exact) >= 1000:
+            ctx.count("vrp:objective_probe_with_penalty")
+        if not arr_ok:
+            once("VRPState.update_arrival_times", "stale_arrival_times", "probe plan: arrival_times after "
+                 f"update_arrival_times() differ from the exact recomputation; routes={pr[0]} arrival_times={pr[2]}",
+                 {"state": pr})
+        if not obj_ok:
+            once("vrp_objective", "objective_mismatch", f"probe plan routes={pr[0]} unassigned={pr[1]}: objective "
+                 f"{pr[3]!r} differs from the documented weighted sum {float(core.unrat(exact))!r} by more than 1e-6",
+                 {"state": pr, "exact": exact})
     for i, (st, (pi, qi), ref) in enumerate(zip(reqs_steps, ids, tv)):
         name, kind, pre, post = st
         if isinstance(ref, str):
@@ -546,7 +634,8 @@ def judge_vrp(ctx, case, o, reply, ids, final_id):
               "objective": out["final_obj"], "exact_objective": sv[final_id][3]})
 
 
-def run_cases(ctx, cases):
+def eval_cases(cases):
+    """Run implementation and model on `cases`; returns one (case, outcome, reply, ids, final_id) each."""
     outs = run_pool(impl, cases, timeout=60.0)
     reqs, meta = [], []
     for c, o in zip(cases, outs):
@@ -561,14 +650,183 @@ def run_cases(ctx, cases):
             reqs.append(r)
             meta.append((len(reqs) - 1, ids, fid))
     replies = Driver("Sched").run(reqs, chunks=16)
+    res = []
     for c, o, m in zip(cases, outs, meta):
         rp = replies[m[0]] if m else None
         if rp and rp[0] == "error":
             raise core.Infra(f"model rejected request: {rp}")
-        if c["kind"] == "js":
-            judge_js(ctx, c, o, rp)
-        else:
-            judge_vrp(ctx, c, o, rp, m[1] if m else None, m[2] if m else None)
+        res.append((c, o, rp, m[1] if m else None, m[2] if m else None))
+    return res
+
+
+def judge(ctx, c, o, rp, ids, fid):
+    if c["kind"] == "js":
+        judge_js(ctx, c, o, rp)
+    else:
+        judge_vrp(ctx, c, o, rp, ids, fid)
+
+
+class _Buffer:
+    """ctx stand-in: buffers `fail`s of the case being judged, forwards the bookkeeping calls (or drops
+    them when `ctx` is None, i.e. while shrinking)."""
+
+    def __init__(self, ctx):
+        self.ctx = ctx
+        self.fails = []
+        self.cov = ctx.cov if ctx is not None else {}
+
+    def fail(self, function, klass, what, replay, no_input=False):
+        self.fails.append((function, klass, what, replay))
+
+    def tdiv(self, *a):
+        if self.ctx is not None:
+            self.ctx.tdiv(*a)
+
+    def count(self, *a):
+        if self.ctx is not None:
+            self.ctx.count(*a)
+
+    def case(self, *a):
+        if self.ctx is not None:
+            self.ctx.case(*a)
+
+
+# ---------------------------------------------------------------------------
+# shrinking: drop jobs / operations / customers / vehicles / script steps while the same class fails
+# ---------------------------------------------------------------------------
+
+def _drop_customer(case, i):
+    """Remove the customer at position i (0-based); ids stay the 1-based positions."""
+    c = json.loads(json.dumps(case))
+    del c["customers"][i]
+    for pos, cu in enumerate(c["customers"]):
+        cu[0] = pos + 1
+    return c
+
+
+def reductions(case):
+    """One-step reductions of a case, most drastic first."""
+    out = []
+
+    def cp():
+        return json.loads(json.dumps(case))
+    if case["kind"] == "js":
+        jobs = case["jobs"]
+        for j in range(len(jobs)):
+            if len(jobs) > 1:
+                c = cp()
+                del c["jobs"][j]
+                out.append((f"drop job {j}", c))
+        for j in range(len(jobs)):
+            for k in reversed(range(len(jobs[j]))):
+                if len(jobs[j]) > 1:
+                    c = cp()
+                    del c["jobs"][j][k]
+                    out.append((f"drop op {j}.{k}", c))
+        if case["max_iter"] > 1:
+            c = cp()
+            c["max_iter"] = case["max_iter"] // 2
+            out.append(("halve max_iter", c))
+        for j in range(len(jobs)):
+            for k in range(len(jobs[j])):
+                if jobs[j][k][1] > 1:
+                    c = cp()
+                    c["jobs"][j][k][1] = 1
+                    out.append((f"duration {j}.{k} -> 1", c))
+        return out
+    if "script" in case:
+        for t in reversed(range(len(case["script"]))):
+            if len(case["script"]) > 1:
+                c = cp()
+                del c["script"][t]
+                out.append((f"drop script step {t}", c))
+    else:
+        if case.get("direct"):
+            c = cp()
+            c["direct"] = []
+            out.append(("drop direct calls", c))
+        if case["max_iter"] > 1:
+            c = cp()
+            c["max_iter"] = case["max_iter"] // 2
+            out.append(("halve max_iter", c))
+    for i in reversed(range(len(case["customers"]))):
+        if len(case["customers"]) > 1:
+            out.append((f"drop customer {i + 1}", _drop_customer(case, i)))
+    veh = case["vehicles"]
+    if isinstance(veh, int) and veh > 1:
+        c = cp()
+        c["vehicles"] = veh - 1
+        out.append(("drop a vehicle", c))
+    elif not isinstance(veh, int):
+        for v in reversed(range(len(veh))):
+            if len(veh) > 1:
+                c = cp()
+                del c["vehicles"][v]
+                out.append((f"drop vehicle at position {v}", c))
+    if case.get("weights"):
+        c = cp()
+        c["weights"] = {}
+        out.append(("default weights", c))
+    if case.get("probes", 3) > 0:
+        c = cp()
+        c["probes"] = 0
+        out.append(("no objective probes", c))
+    for i, cu in enumerate(case["customers"]):
+        if cu[7] > 1:
+            c = cp()
+            c["customers"][i][7] = 1
+            out.append((f"customer {i + 1} single-vehicle", c))
+    return out
+
+
+def fails_of(res):
+    b = _Buffer(None)
+    judge(b, *res)
+    return b.fails
+
+
+def shrink(case, function, klass, max_rounds=40):
+    """Greedy structural shrinking; a candidate is kept only if the *same* (function, class) still fails."""
+    history = []
+    for _ in range(max_rounds):
+        cands = reductions(case)[:60]
+        if not cands:
+            break
+        hit = None
+        for (label, cand), res in zip(cands, eval_cases([c for _, c in cands])):
+            if any(f == function and k == klass for f, k, _, _ in fails_of(res)):
+                hit = (label, cand)
+                break
+        if hit is None:
+            break
+        history.append(hit[0])
+        case = hit[1]
+    return case, history
+
+
+def run_cases(ctx, cases, do_shrink=True):
+    pending = []
+    for res in eval_cases(cases):
+        b = _Buffer(ctx)
+        judge(b, *res)
+        pending += [(res[0], f) for f in b.fails]
+    reported = ctx.__dict__.setdefault("_c18_reported", set())
+    for case, (function, klass, what, rep) in pending:
+        if ctx.known_match(function, klass) is not None:
+            ctx.fail(function, klass, what, rep)
+            continue
+        if (function, klass) in reported:  # one (minimised) replay per failure class and run
+            ctx.count(f"further_failures_same_class:{function}:{klass}")
+            continue
+        reported.add((function, klass))
+        if do_shrink and len(ctx.violations) < 5 and not case.get("malformed"):
+            small, hist = shrink(case, function, klass)
+            if hist:
+                again = [f for f in fails_of(eval_cases([small])[0]) if f[0] == function and f[1] == klass]
+                if again:  # report the minimised input, with both outputs recomputed on it
+                    _, _, what, rep = again[0]
+                    rep = {**rep, "shrunk_from": case, "shrink_history": hist}
+        ctx.fail(function, klass, what, rep)
 
 
 def run(ctx, budget):
@@ -589,4 +847,4 @@ def run(ctx, budget):
 
 def replay(ctx, body):
     ctx.cov["rule"] = RULE
-    run_cases(ctx, [body["case"]])
+    run_cases(ctx, [body["case"]], do_shrink=False)
